@@ -278,12 +278,16 @@ class PDFXRefStream(PDFBaseXRef):
         (_, stream) = parser.nextobject()
         if not isinstance(stream, PDFStream) or stream.get("Type") is not LITERAL_XREF:
             raise PDFNoValidXRef("Invalid PDF stream spec.")
-        size = stream["Size"]
+        try:
+            size = stream["Size"]
+            widths = stream["W"]
+        except KeyError as e:
+            raise PDFNoValidXRef(f"Missing entry in cross-reference stream: {e}")
         index_array = stream.get("Index", (0, size))
         if len(index_array) % 2 != 0:
             raise PDFSyntaxError("Invalid index number")
         self.ranges.extend(cast(Iterator[Tuple[int, int]], choplist(2, index_array)))
-        (self.fl1, self.fl2, self.fl3) = stream["W"]
+        (self.fl1, self.fl2, self.fl3) = widths
         assert self.fl1 is not None and self.fl2 is not None and self.fl3 is not None
         self.data = stream.get_data()
         self.entlen = self.fl1 + self.fl2 + self.fl3
